@@ -364,6 +364,44 @@ def check_scans(chk):
     return n
 
 
+UNIQUE_ADDERS = ("add_unique_type", "add_or_throw", "add_unique_message")
+
+
+def check_unique_insertion(chk):
+    """G-UNIQ: the schema-level name tables (`message_schema.types`, the message list / id sets) are written only by
+    the adders that report a duplicate (`add_unique_type`, `unique_set::add_or_throw`): any other insertion into them
+    (`insert(first, last)`, `operator[]`, `emplace`, `merge` ...) silently keeps one of two same-named entities -
+    a duplicate name that reaches the table through that path is never reported"""
+    f = gen.facts()
+    n = 0
+    for fn in gen.sbeppc_functions(f):
+        sf = short_fn(fn)
+        if not sf.startswith("schema_parser::"):
+            continue
+        for x in walk(fn["body"]):
+            c = x.get("callee") or {}
+            if x.get("k") not in ("CXXMemberCallExpr", "CXXOperatorCallExpr") or x.get("obj") is None:
+                continue
+            if c.get("name") not in ("insert", "emplace", "try_emplace", "insert_or_assign", "merge", "operator[]", "emplace_hint", "swap"):
+                continue
+            ot = gen.expr_text(x["obj"], 0, fn)
+            t = (x["obj"].get("t") or "")
+            if not (re.search(r"message_schema\.types$|\.types$", ot) and "unordered_map" in t):
+                continue
+            n += 1
+            key = "unique-insert:%s:%s" % (sf, c.get("name"))
+            where = "%s:%s" % (rel(fn["file"]), x.get("l"))
+            if fn["name"] in UNIQUE_ADDERS:
+                chk.ok("G-UNIQ", key, {"where": where, "table": ot, "adder": fn["name"]}, nontrivial=True)
+            else:
+                chk.violation("G-UNIQ", key, where,
+                              "%s writes the schema type table `%s` with %s(...) outside the duplicate-reporting adder: a second "
+                              "type of the same (case-insensitive) name arriving on this path is dropped or replaces the first "
+                              "without any diagnostic" % (sf, ot, c.get("name")))
+    chk.floor("G-UNIQ insertions into the type table", n, 1)
+    return n
+
+
 def extract(f=None):
     gen.SHOW_TARGS = True
     try:
